@@ -429,8 +429,13 @@ func writeEvidence(id, tier string, seed int64, mg *vcore.Result, wall float64, 
 		ev["assumptions"] = []string{}
 	}
 	b, _ := json.MarshalIndent(ev, "", " ")
-	os.MkdirAll(filepath.Join(root, "evidence"), 0o755)
-	if err := os.WriteFile(filepath.Join(root, "evidence", id+".json"), b, 0o644); err != nil {
+	evdir := filepath.Join(root, "evidence")
+	if os.Getenv("VERIF_OVERLAY") != "" {
+		// a run against an overlaid (deliberately changed) tree says nothing about /repo: keep it apart
+		evdir = filepath.Join(root, ".build", "evidence-overlay")
+	}
+	os.MkdirAll(evdir, 0o755)
+	if err := os.WriteFile(filepath.Join(evdir, id+".json"), b, 0o644); err != nil {
 		die("evidence: %v", err)
 	}
 }
